@@ -112,6 +112,7 @@ def check_C09(tier, seed):
     scns = families.probe_programs(seed, 1500 if quick else 12000, depth=3 if quick else 4)
     cases = [c for c in vmrun.run_scenarios(scns) if 'harness_error' not in c]
     engine.judge_cases(rep, cases, devs, what='probe program')
+    _reference_parse_component(rep, [cl['src'] for c in cases[:400 if quick else 4000] for cl in c['calls']], 'probe program')
     rep.assumptions += ['probe outcomes are drawn from {1, 0, 2, "a", None, host list, host dict, raise}', 'TLC bounds: MaxDepth, MaxLeaves of spec/MC_C09.tla']
     return rep.finish()
 
@@ -276,6 +277,33 @@ def _lexparse_check(prop, fn, tier, seed, rule, extra=None, session_clauses=None
         # the same question asked of a parser with a history (earlier calls that failed or were abandoned, a parse cache)
         _session_component(rep, seed + 31, tier == 'quick', session_clauses, session_what)
     return rep.finish()
+
+
+def _reference_parse_component(rep, sources, what):
+    """The trees the evaluator-level traces are validated on come from the real parser.  For families whose property
+    depends on WHAT is evaluated (arithmetic nodes, operand order), the texts are also parsed by the specification
+    (TraceParse: lexer + normative parser in TLA+): the real tree must be the grammar's tree - constants folded, operands
+    merged or reordered at parse time would otherwise bypass the evaluator the property is about."""
+    lp = _lexparse()
+    devs = [d for d in engine.open_deviations() if d in lp.ALL_DEVIATIONS] + list(lp.IMPL_DETAIL)
+    cases = [{'text': s, 'origin': 'vm-family'} for s in sorted(set(sources))]
+    if not cases:
+        return
+    st = lp._new_stats()
+    try:
+        lp.run_cases_b(cases, tuple(devs), st)
+    except lp.MachineryError as e:
+        rep.machinery.append(str(e)[-1500:])
+        return
+    rep.states += int(st.get('states', 0))
+    rep.transitions += int(st.get('states', 0))
+    rep.notes.setdefault('reference_parse', []).append({'texts': len(cases), 'mismatches': st.get('mismatch_count', 0)})
+    for m in st.get('mismatches', []):
+        clause = str(m.get('kind') or m.get('clause'))
+        if m.get('explained_by') or clause not in ('accept', 'tree'):
+            continue
+        rep.violation('%s: the parser does not build the tree of the grammar for %r: specified %s, observed %s' %
+                      (what, m.get('input'), str(m.get('expected'))[:200], str(m.get('observed'))[:200]), m)
 
 
 def _session_component(rep, seed, quick, clauses, what, kinds=(None, 'dict')):
@@ -574,6 +602,7 @@ def check_C07(tier, seed):
     scns = [vmgen.random_scenario(seed * 1000003 + i) for i in range(2500 if quick else 25000)]
     cases = [c for c in vmrun.run_scenarios(scns) if 'harness_error' not in c]
     engine.judge_cases(rep, cases, devs, what='random program')
+    _reference_parse_component(rep, [cl['src'] for c in cases[:500 if quick else 5000] for cl in c['calls']], 'random program')
     # every eval call the repository's own tests make, recorded and validated event by event
     tscns = families.repo_test_evals()
     rep.notes['repository_test_evals_recorded'] = len(tscns)
@@ -615,6 +644,7 @@ def check_C08(tier, seed):
         s['literals'] = True
     cases = [c for c in vmrun.run_scenarios(scns) if 'harness_error' not in c]
     engine.judge_cases(rep, cases, devs, what='numeric program')
+    _reference_parse_component(rep, [cl['src'] for c in cases[:400 if quick else 4000] for cl in c['calls']], 'numeric program')
     scns = families.literal_history_programs(seed + 2, 400 if quick else 5000)
     cases = [c for c in vmrun.run_scenarios(scns) if 'harness_error' not in c]
     engine.judge_cases(rep, cases, devs, what='literal-after-float history')
@@ -642,9 +672,14 @@ def check_C04(tier, seed):
     scns = families.numeric_programs(seed + 7, 1200 if quick else 20000, host_types=True)
     cases = [c for c in vmrun.run_scenarios(scns) if 'harness_error' not in c]
     engine.judge_cases(rep, cases, devs, what='numeric chain')
+    srcs = [cl['src'] for c in cases for cl in c['calls']]
     scns = families.shadowed_cast_programs(seed + 9, 500 if quick else 6000)
     cases = [c for c in vmrun.run_scenarios(scns) if 'harness_error' not in c]
     engine.judge_cases(rep, cases, devs, what='program with shadowed numeric casts')
+    scns = families.literal_arithmetic_programs(seed + 11, 400 if quick else 4000)
+    cases = [c for c in vmrun.run_scenarios(scns) if 'harness_error' not in c]
+    engine.judge_cases(rep, cases, devs, what='arithmetic over literals')
+    _reference_parse_component(rep, srcs[:300 if quick else 3000] + [cl['src'] for c in cases for cl in c['calls']], 'arithmetic program')
     return rep.finish()
 
 
@@ -690,7 +725,8 @@ PLAIN_BUT_UNREPRESENTABLE = ('Decimal:', 'int:huge', 'float:', 'too-deep', 'dict
 AUDIT_DENY = ('open', 'os.', 'subprocess.', 'socket.', 'import', 'exec', 'compile', 'ctypes.', 'shutil.', 'urllib.', 'http.', 'ftplib.',
               'smtplib.', 'webbrowser.', 'marshal.', 'pickle.', 'sqlite3.', 'pty.', 'fcntl.', 'mmap.', 'glob.', 'tempfile.', 'pathlib.',
               'code.__new__', 'function.__new__', 'builtins.input', 'cpython.run', 'sys.settrace', 'sys.setprofile', 'sys._getframe',
-              'signal.', 'syslog.', 'telnetlib.', 'nntplib.', 'imaplib.', 'poplib.', 'resource.', 'gc.get_')
+              'signal.', 'syslog.', 'telnetlib.', 'nntplib.', 'imaplib.', 'poplib.', 'resource.', 'gc.get_',
+              'stream.write')      # text written to the process's stdout / stderr while a program is evaluated (recorded by harness/vmrun.py)
 
 
 def _opaque_values(v, path=''):
